@@ -22,7 +22,6 @@
 #endif
 #if SIDE == 0
 #include "t0n_hsc.c"
-#define NATIVE C03_CAT(t0n_hsc_op, C03_CAT(C05_OP_memcmp, _memcmp))
 #include "t0n_hsc_ops.h"
 #else
 #include "t0n_hss.c"
@@ -46,23 +45,30 @@ main(void)
 #ifdef NATIVE_REPLAY
 	memset(c, 0, sizeof *c);
 #endif
+	/* regions written through their fields (byte-level writes into the context cost minutes) */
 #if PAIR == 0
+#define R1(i) c->eng.pad[i]
+#define R2(i) c->eng.pad[LEN + (i)]
 	a1 = offsetof(br_ssl_engine_context, pad);
 	a2 = offsetof(br_ssl_engine_context, pad) + LEN;
 #elif PAIR == 1
+#define R1(i) c->eng.saved_finished[i]
+#define R2(i) c->eng.pad[i]
 	a1 = offsetof(br_ssl_engine_context, saved_finished);
 	a2 = offsetof(br_ssl_engine_context, pad);
 #else
+#define R1(i) c->eng.session.session_id[i]
+#define R2(i) c->eng.pad[i]
 	a1 = offsetof(br_ssl_engine_context, session) + offsetof(br_ssl_session_parameters, session_id);
 	a2 = offsetof(br_ssl_engine_context, pad);
 #endif
 	for (i = 0; i < LEN; i ++) {
 		x[i] = ND_U8(); y[i] = ND_U8();
-		((unsigned char *)&c->eng)[a1 + i] = x[i];
-		((unsigned char *)&c->eng)[a2 + i] = y[i];
+		R1(i) = x[i];
+		R2(i) = y[i];
 		if (x[i] != y[i]) eq = 0;
 	}
-	T0F_DEPTH(3);
+	T0F_DEPTH_AT(5);
 	d0 = t0n_dpi;
 	T0F_PUSH(c, a1); T0F_PUSH(c, a2); T0F_PUSH(c, LEN);
 	t0n_co = 0;
@@ -70,7 +76,7 @@ main(void)
 	CHECK(t0n_dpi == d0 + 1 && t0n_co == 0, "memcmp pops three operands, pushes one result and does not yield");
 	CHECK(T0F_TOP(c, 0) == (eq ? 0xFFFFFFFFu : 0u), "memcmp pushes -1 exactly when all len bytes are equal, else 0");
 	for (i = 0; i < LEN; i ++) {
-		CHECK(((unsigned char *)&c->eng)[a1 + i] == x[i] && ((unsigned char *)&c->eng)[a2 + i] == y[i], "compared regions unmodified");
+		CHECK(R1(i) == x[i] && R2(i) == y[i], "compared regions unmodified");
 	}
 	if (eq) { WITNESS_POINT("equal"); } else { WITNESS_POINT("different"); }
 	return 0;
